@@ -65,5 +65,97 @@ theorem words_quote (s : Str) : words (quote s) = some [s] := by
       rw [wordsAux_sq s [] [] ['\'']]
       simp [wordsAux]
 
+/-- `txt` is read by the shell as the single word `v`, whatever was read before and whatever follows a blank -/
+def ReadsAs (txt v : Str) : Prop :=
+  (∀ acc rest, wordsAux .bare none acc (txt ++ ' ' :: rest) = wordsAux .bare none (v :: acc) rest) ∧
+  (∀ acc, wordsAux .bare none acc txt = some ((v :: acc).reverse))
+
+theorem wordsAux_end_blank (w : Str) (acc : List Str) (rest : Str) :
+    wordsAux .bare (some w) acc (' ' :: rest) = wordsAux .bare none (w.reverse :: acc) rest := by
+  simp [wordsAux]
+
+theorem wordsAux_end (w : Str) (acc : List Str) :
+    wordsAux .bare (some w) acc [] = some ((w.reverse :: acc).reverse) := by
+  simp [wordsAux]
+
+theorem safe_readsAs (w : Str) (h0 : w ≠ []) (hs : w.all safeChar = true) : ReadsAs w w := by
+  cases w with
+  | nil => exact absurd rfl h0
+  | cons c cs =>
+    simp only [List.all_cons, Bool.and_eq_true] at hs
+    obtain ⟨h1, h2, h3, h4, h5⟩ := safeChar_plain hs.1
+    constructor
+    · intro acc rest
+      simp only [List.cons_append, wordsAux, h1, h2, h3, h4, h5, or_self, if_false, hs.1, if_true, Option.getD_none]
+      rw [wordsAux_safe cs hs.2 [c] acc (' ' :: rest), wordsAux_end_blank]
+      simp
+    · intro acc
+      simp only [wordsAux, h1, h2, h3, h4, h5, or_self, if_false, hs.1, if_true, Option.getD_none]
+      have := wordsAux_safe cs hs.2 [c] acc []
+      simp only [List.append_nil] at this
+      rw [this, wordsAux_end]
+      simp
+
+theorem quote_readsAs (s : Str) : ReadsAs (quote s) s := by
+  unfold quote
+  by_cases h0 : s = []
+  · subst h0
+    constructor
+    · intro acc rest; simp [wordsAux]
+    · intro acc; simp [wordsAux]
+  · by_cases hsafe : s.all safeChar = true
+    · simp only [h0, if_false, hsafe, if_true]
+      exact safe_readsAs s h0 hsafe
+    · simp only [h0, if_false, hsafe]
+      have h5 : ¬ (('\'' : Char) = ' ' ∨ ('\'' : Char) = '\t' ∨ ('\'' : Char) = '\n') := by decide
+      constructor
+      · intro acc rest
+        simp only [List.cons_append, List.append_assoc, wordsAux, h5, if_false, if_true, Option.getD_none, Bool.false_eq_true]
+        rw [wordsAux_sq s [] acc]
+        simp [wordsAux]
+      · intro acc
+        simp only [wordsAux, h5, if_false, if_true, Option.getD_none, Bool.false_eq_true]
+        rw [wordsAux_sq s [] acc ['\'']]
+        simp [wordsAux]
+
+/-- a literal word of the template: non-empty and made of characters the shell takes as they are -/
+def HookTok.plain : HookTok → Prop
+  | .lit w => w ≠ [] ∧ w.all safeChar = true
+  | _ => True
+
+theorem render_readsAs (e : HookEnv) (t : HookTok) (h : t.plain) : ReadsAs (t.render e) (t.value e) := by
+  cases t with
+  | lit w => exact safe_readsAs w h.1 h.2
+  | user => exact quote_readsAs _
+  | path => exact quote_readsAs _
+  | cwd => exact quote_readsAs _
+
+theorem wordsAux_join (e : HookEnv) (ts : List HookTok) (h : ∀ t ∈ ts, t.plain) (acc : List Str) :
+    wordsAux .bare none acc (joinBlank (ts.map (HookTok.render e))) = some (acc.reverse ++ ts.map (HookTok.value e)) := by
+  induction ts generalizing acc with
+  | nil => simp [joinBlank, wordsAux]
+  | cons t rest ih =>
+    have ht := render_readsAs e t (h t List.mem_cons_self)
+    cases rest with
+    | nil =>
+      simp only [List.map_cons, List.map_nil, joinBlank]
+      rw [ht.2 acc]
+      simp
+    | cons t2 rest2 =>
+      simp only [List.map_cons, joinBlank]
+      rw [ht.1 acc]
+      have := ih (fun x hx => h x (List.mem_cons_of_mem _ hx)) (t.value e :: acc)
+      simp only [List.map_cons] at this
+      rw [this]
+      simp
+
+/-- The shell that runs the hook reads the command as exactly the template's words with each placeholder
+    replaced by its value: nothing a client put in the login or the path is split, expanded or run. -/
+theorem words_hookCommand (e : HookEnv) (ts : List HookTok) (h : ∀ t ∈ ts, t.plain) :
+    words (hookCommand ts e) = some (ts.map (HookTok.value e)) := by
+  unfold words hookCommand
+  rw [wordsAux_join e ts h []]
+  simp
+
 end Shell
 end Radicale
